@@ -35,6 +35,17 @@ def reference_functions():
     return _ref_funcs
 
 
+_ref_tests = None
+
+
+def reference_tests():
+    global _ref_tests
+    if _ref_tests is None:
+        p = os.path.join(_HERE, "reference", "tests.json")
+        _ref_tests = json.load(open(p)) if os.path.exists(p) else {}
+    return _ref_tests
+
+
 # ---------------------------------------------------------------------------------------------------------
 # small tree-wide rewrites
 
@@ -120,6 +131,7 @@ def _blocks_of(node):
             yield c.body
 
 
+_PURE_CALLS_ = None
 _PURE_CALLS = {"isinstance", "issubclass", "len", "hasattr", "getattr", "type", "callable", "bool", "int", "float", "str",
                "tuple", "frozenset", "min", "max", "abs", "id", "repr"}
 
@@ -129,7 +141,7 @@ def is_pure(e):
         if isinstance(n, ast.Call):
             if not (isinstance(n.func, ast.Name) and n.func.id in _PURE_CALLS):
                 return False
-        elif isinstance(n, (ast.Await, ast.Yield, ast.YieldFrom, ast.NamedExpr, ast.Lambda, ast.ListComp, ast.SetComp,
+        elif isinstance(n, (ast.Await, ast.Yield, ast.YieldFrom, ast.NamedExpr, ast.ListComp, ast.SetComp,
                             ast.DictComp, ast.GeneratorExp, ast.Starred, ast.List, ast.Dict, ast.Set)):
             return False
     return True
@@ -178,7 +190,7 @@ def propagate_new_locals(fn, known_names):
             if isinstance(n, ast.Name) and n.id in locs:
                 (stores if isinstance(n.ctx, (ast.Store, ast.Del)) else loads).setdefault(n.id, []).append(n)
         progressed = False
-        for v in sorted(locs, key=lambda x: (stores.get(x, [None])[0].lineno if stores.get(x) else 0)):
+        for v in sorted(locs, key=lambda x: (getattr(stores[x][0], 'lineno', 0) if stores.get(x) else 0)):
             if v in nested_names or not loads.get(v):
                 continue
             if len(stores.get(v, [])) > 1:
@@ -547,6 +559,7 @@ def inline_new_helpers(module, known):
             break
     if n_inlined:
         _drop_unreferenced(module, known)
+        ast.fix_missing_locations(module.tree)
     return n_inlined
 
 
@@ -724,3 +737,167 @@ def _drop_unreferenced(module, known):
         if not body:
             body.append(ast.Pass())
     prune(module.tree)
+
+
+# ---------------------------------------------------------------------------------------------------------
+# control-flow shapes
+
+_TERM = (ast.Return, ast.Raise, ast.Continue, ast.Break)
+
+
+def _terminates(body):
+    if not body:
+        return False
+    last = body[-1]
+    if isinstance(last, _TERM):
+        return True
+    if isinstance(last, ast.If) and last.orelse:
+        return _terminates(last.body) and _terminates(last.orelse)
+    return False
+
+
+def _all_blocks(root):
+    for n in ast.walk(root):
+        for b in _blocks_of(n):
+            yield n, b
+
+
+def flatten_else(tree):
+    """`if c: A (every path leaves) else: B`  ->  `if c: A` followed by B. The two are the same control-flow graph;
+    one spelling keeps syntactic rules independent of the early-return / else style. (`elif` is an else holding an if.)"""
+    n_done = 0
+    changed = True
+    while changed:
+        changed = False
+        for holder, blk in list(_all_blocks(tree)):
+            for i, st in enumerate(blk):
+                if isinstance(st, ast.If) and st.orelse and _terminates(st.body):
+                    rest = st.orelse
+                    st.orelse = []
+                    blk[i + 1:i + 1] = rest
+                    n_done += 1
+                    changed = True
+                    break
+            if changed:
+                break
+    return n_done
+
+
+def sink_return(fn, known_names):
+    """`if ..: v = A  else: v = B` ; `return v`  (v a local the reference does not know)  ->  the return is copied to
+    the end of each branch (then `v = A; return v` is a return temporary, removed by propagate_new_locals)."""
+    n_done = 0
+    changed = True
+    while changed:
+        changed = False
+        for holder, blk in list(_all_blocks(fn)):
+            if isinstance(holder, FUNC + (ast.ClassDef,)) and holder is not fn:
+                continue
+            for i in range(len(blk) - 1):
+                a, r = blk[i], blk[i + 1]
+                if isinstance(a, ast.If) and isinstance(r, ast.Return) and isinstance(r.value, ast.Name) and r.value.id not in known_names \
+                        and _assigned_on_some_tail(a, r.value.id):
+                    _append_to_tails(a, r)
+                    del blk[i + 1]
+                    n_done += 1
+                    changed = True
+                    break
+            if changed:
+                break
+    return n_done
+
+
+def _assigned_on_some_tail(ifst, v):
+    def tail_assigns(body):
+        if not body:
+            return False
+        last = body[-1]
+        if isinstance(last, ast.Assign) and len(last.targets) == 1 and isinstance(last.targets[0], ast.Name) and last.targets[0].id == v:
+            return True
+        if isinstance(last, ast.If):
+            return tail_assigns(last.body) or tail_assigns(last.orelse)
+        return False
+    return tail_assigns(ifst.body) or tail_assigns(ifst.orelse)
+
+
+def _append_to_tails(ifst, ret):
+    def app(body):
+        if body and isinstance(body[-1], ast.If) and not _terminates([body[-1]]):
+            _append_to_tails(body[-1], ret)
+        elif not (body and _terminates(body)):
+            body.append(copy.deepcopy(ret))
+    app(ifst.body)
+    if not ifst.orelse:
+        ifst.orelse = [copy.deepcopy(ret)]
+    else:
+        app(ifst.orelse)
+
+
+def nested_def_to_lambda(module, known):
+    """a nested `def f(args): return E` that the reference does not know -> `f = lambda args: E` (a local like any other)"""
+    if known is None:
+        return 0
+    known = set(known)
+    n_done = 0
+    for q, fn in list(module.funcs.items()):
+        if q in known or "." not in q:
+            continue
+        outer = q.rsplit(".", 1)[0]
+        if outer not in module.funcs:
+            continue
+        body = _strip_doc(fn.body)
+        if fn.decorator_list or len(body) != 1 or not isinstance(body[0], ast.Return) or body[0].value is None or isinstance(fn, ast.AsyncFunctionDef):
+            continue
+        if any(isinstance(n, (ast.Yield, ast.YieldFrom, ast.Await)) for n in ast.walk(body[0])):
+            continue
+        for holder, blk in _all_blocks(module.funcs[outer]):
+            for i, st in enumerate(blk):
+                if st is fn:
+                    args = copy.deepcopy(fn.args)
+                    for a in args.posonlyargs + args.args + args.kwonlyargs:
+                        a.annotation = None
+                    lam = ast.Lambda(args=args, body=body[0].value)
+                    blk[i] = ast.copy_location(ast.Assign(targets=[ast.copy_location(ast.Name(id=fn.name, ctx=ast.Store()), fn)], value=ast.copy_location(lam, fn), lineno=fn.lineno), fn)
+                    ast.fix_missing_locations(blk[i])
+                    n_done += 1
+    return n_done
+
+
+def split_or_guards(fn, ref_tests):
+    """`if a or b: T` (T leaves, no else) -> `if a: T` `if b: T`, and back - whichever spelling the reference has
+    (ref_tests = the texts of the if-tests of this function on the pinned tree). Same control-flow graph."""
+    from .core import unparse
+    n_done = 0
+    changed = True
+    while changed:
+        changed = False
+        for holder, blk in list(_all_blocks(fn)):
+            if isinstance(holder, FUNC + (ast.ClassDef,)) and holder is not fn:
+                continue
+            for i, st in enumerate(blk):
+                if isinstance(st, ast.If) and not st.orelse and isinstance(st.test, ast.BoolOp) and isinstance(st.test.op, ast.Or) \
+                        and _terminates(st.body) and len(st.body) <= 3 and str(unparse(st.test, 400)) not in ref_tests \
+                        and any(str(unparse(v, 400)) in ref_tests for v in st.test.values) \
+                        and not any(isinstance(n, ast.NamedExpr) for n in ast.walk(st.test)):
+                    new = []
+                    for v in st.test.values:
+                        new.append(ast.copy_location(ast.If(test=v, body=copy.deepcopy(st.body), orelse=[]), st))
+                    blk[i:i + 1] = new
+                    n_done += 1
+                    changed = True
+                    break
+                if i + 1 < len(blk) and isinstance(st, ast.If) and isinstance(blk[i + 1], ast.If) and not st.orelse and not blk[i + 1].orelse \
+                        and _terminates(st.body) and ast.dump(ast.Module(body=st.body, type_ignores=[])) == ast.dump(ast.Module(body=blk[i + 1].body, type_ignores=[])):
+                    vals = []
+                    for t in (st.test, blk[i + 1].test):
+                        vals.extend(t.values if isinstance(t, ast.BoolOp) and isinstance(t.op, ast.Or) else [t])
+                    merged = ast.copy_location(ast.BoolOp(op=ast.Or(), values=vals), st.test)
+                    if str(unparse(merged, 400)) in ref_tests:
+                        st.test = merged
+                        del blk[i + 1]
+                        n_done += 1
+                        changed = True
+                        break
+            if changed:
+                break
+    return n_done
